@@ -105,7 +105,7 @@ impl FeatureRangeFn {
                     #[doc=#doc_inner]
                     #[inline]
                     #vis fn #ident_range_fn(start: Self, end: Self) -> #ident_iter_struct {
-                        use ::core::iter::Iterator;
+                        use ::core::iter::Iterator as _;
                         #ident_iter_struct {
                             inner: ((start as #repr)..=(end as #repr)).map(|x| unsafe { ::core::mem::transmute(x) }),
                         }
@@ -135,7 +135,7 @@ impl FeatureRangeFn {
                         let start_idx = (start as #repr).wrapping_sub(Self::#ident_min as #repr) as #repr_unsigned as usize;
                         let end_idx = (end as #repr).wrapping_sub(Self::#ident_min as #repr) as #repr_unsigned as usize;
 
-                        use ::core::iter::Iterator;
+                        use ::core::iter::Iterator as _;
                         #ident_iter_struct {
                             inner: if start_idx > end_idx {
                                 Self::#ident_table_enum[..0].iter().copied()
@@ -205,7 +205,7 @@ impl FeatureRangeFn {
                         let start_idx = unsafe { start_idx.assume_init() };
                         let end_idx = unsafe { end_idx.assume_init() };
 
-                        use ::core::iter::Iterator;
+                        use ::core::iter::Iterator as _;
                         #ident_iter_struct {
                             inner: if start_idx > end_idx {
                                 Self::#ident_table_enum[..0].iter().copied()
